@@ -790,7 +790,7 @@ def run_C10(ctx):
                     extra_cfg="ACTION_CONSTRAINT Edges", workers=2, timeout=900)
         edges = tour.parse_edges(r.out)
         hist, total, covered = tour.plan(edges, kind)
-        for first in ("P3", "PX"):          # refused by the default verifier: no VM object comes to exist
+        for first in ("P3", "PX", "PY"):          # refused by the default verifier: no VM object comes to exist
             hist.append({"kind": kind, "first": first, "calls": []})
         path = os.path.join(ctx.workdir, f"tour.{kind}.script.ndjson")
         open(path, "w").write("\n".join(json.dumps(h) for h in hist) + "\n")
